@@ -852,70 +852,67 @@ theorem idxExact_dropBtree (T : Table) (c : Nat) (h : IdxExact T) :
     IdxExact { T with btreeOn := T.btreeOn.filter (· ≠ c), btreeE := idxDropCol c T.btreeE } :=
   ⟨h.1, exactOn_dropCol c h.2⟩
 
-/-- with exact indexes every index-served answer is the full-scan answer -/
+/-- with exact indexes, every live row satisfying a condition that an index serves occurs exactly
+    once among the candidates `try_index_lookup` returns — also for `And(a, b)`, whose candidates are
+    those of whichever side is served first -/
+theorem candidates_count (T : Table) (h : IdxExact T) (cond : Cond) :
+    ∀ cands, candidates T cond = some cands → ∀ i r, T.rows[i]? = some r → r.alive = true →
+      evalCond cond i r.vals = true → cands.count i = 1 := by
+  have bt : ∀ (c : Nat) (p : Int → Bool) (cands : List Nat), btCands T c p = some cands →
+      ∀ i r, T.rows[i]? = some r → r.alive = true →
+      (match r.vals[c]? with | some x => p x | none => false) = true → cands.count i = 1 := by
+    intro c p cands hc i r hr ha he
+    unfold btCands at hc
+    split at hc
+    · rename_i hon
+      cases hc
+      obtain ⟨x, hx, hp⟩ := evalCond_pred he
+      exact count_cands h.2 p hon hr ha hx hp
+    · cases hc
+  induction cond with
+  | all => intro cands hc; cases hc
+  | idEq j => intro cands hc; cases hc
+  | ne c v => intro cands hc; cases hc
+  | or a b _ _ => intro cands hc; cases hc
+  | eq c v =>
+    intro cands hc i r hr ha he
+    unfold candidates hashCands at hc
+    split at hc
+    · rename_i hon
+      cases hc
+      obtain ⟨x, hx, hp⟩ := evalCond_pred (p := fun k => k == v) he
+      exact count_cands h.1 (fun k => k == v) hon hr ha hx hp
+    · cases hc
+  | lt c v => intro cands hc i r hr ha he; exact bt c _ cands hc i r hr ha he
+  | le c v => intro cands hc i r hr ha he; exact bt c _ cands hc i r hr ha he
+  | gt c v => intro cands hc i r hr ha he; exact bt c _ cands hc i r hr ha he
+  | ge c v => intro cands hc i r hr ha he; exact bt c _ cands hc i r hr ha he
+  | and a b iha ihb =>
+    intro cands hc i r hr ha he
+    have he' : evalCond a i r.vals = true ∧ evalCond b i r.vals = true := by
+      have : (evalCond a i r.vals && evalCond b i r.vals) = true := he
+      rwa [Bool.and_eq_true] at this
+    have hc' : (match candidates T a with | some cands => some cands | none => candidates T b) = some cands := hc
+    cases hca : candidates T a with
+    | some ca =>
+      rw [hca] at hc'
+      have hcc : ca = cands := Option.some.inj hc'
+      subst hcc
+      exact iha ca hca i r hr ha he'.1
+    | none =>
+      rw [hca] at hc'
+      exact ihb cands hc' i r hr ha he'.2
+
+/-- with exact indexes every index-served answer is the full-scan answer — every condition,
+    including `Ne`, `And` (served by the index of either side) and `Or` -/
 theorem select_eq_scan (T : Table) (h : IdxExact T) (cond : Cond) : select T cond = scanAnswer T cond := by
-  have key : ∀ (on : List Nat) (es : List Entry) (c : Nat) (p : Int → Bool), ExactOn T.rows on es → c ∈ on →
-      (∀ i vals, evalCond cond i vals = true → ∃ x, vals[c]? = some x ∧ p x = true) →
-      indexAnswer T cond ((es.filter fun e => e.1 == c && p e.2.1).map (·.2.2)) = scanAnswer T cond := by
-    intro on es c p hex hc hev
+  unfold select
+  cases hc : candidates T cond with
+  | none => rfl
+  | some cands =>
     apply indexAnswer_eq_scan
     intro i hi
     obtain ⟨r, hr, ha, he⟩ := mem_matching.mp hi
-    obtain ⟨x, hx, hp⟩ := hev i r.vals he
-    exact count_cands hex p hc hr ha hx hp
-  unfold select candidates
-  cases cond with
-  | all => rfl
-  | idEq j => rfl
-  | eq c v =>
-    dsimp only
-    split
-    · rename_i cands hcands
-      split at hcands
-      · rename_i hc
-        cases hcands
-        exact key T.hashOn T.hashE c (fun k => k == v) h.1 hc (fun i vals he => evalCond_pred he)
-      · cases hcands
-    · rfl
-  | lt c v =>
-    dsimp only
-    split
-    · rename_i cands hcands
-      split at hcands
-      · rename_i hc
-        cases hcands
-        exact key T.btreeOn T.btreeE c (fun k => decide (k < v)) h.2 hc (fun i vals he => evalCond_pred he)
-      · cases hcands
-    · rfl
-  | le c v =>
-    dsimp only
-    split
-    · rename_i cands hcands
-      split at hcands
-      · rename_i hc
-        cases hcands
-        exact key T.btreeOn T.btreeE c (fun k => decide (k ≤ v)) h.2 hc (fun i vals he => evalCond_pred he)
-      · cases hcands
-    · rfl
-  | gt c v =>
-    dsimp only
-    split
-    · rename_i cands hcands
-      split at hcands
-      · rename_i hc
-        cases hcands
-        exact key T.btreeOn T.btreeE c (fun k => decide (k > v)) h.2 hc (fun i vals he => evalCond_pred he)
-      · cases hcands
-    · rfl
-  | ge c v =>
-    dsimp only
-    split
-    · rename_i cands hcands
-      split at hcands
-      · rename_i hc
-        cases hcands
-        exact key T.btreeOn T.btreeE c (fun k => decide (k ≥ v)) h.2 hc (fun i vals he => evalCond_pred he)
-      · cases hcands
-    · rfl
+    exact candidates_count T h cond cands hc i r hr ha he
 
 end Neumann.RelTx
